@@ -234,6 +234,65 @@ fn gen_text(ctx: &mut Ctx) -> String {
     s
 }
 
+/// thorough tier: every loop program of a small scope — declarations from 2 shapes (one of them with
+/// a continuation line), ranges from {0..0, 0..1, 0..2, -1..1}, inner loops over 1–2 declarations, outer
+/// loops over 1–2 items (declaration or inner loop), programs = one outer item, or a declaration
+/// before/after an outer loop; indentation unit 2 and 4
+fn exhaustive_small(ctx: &mut Ctx) {
+    let ranges: [(i64, i64); 4] = [(0, 0), (0, 1), (0, 2), (-1, 1)];
+    // `lvl` = number of enclosing loops whose variables the declaration mentions (0: none, 1: {i}, 2: {i} and {j})
+    let leaf = |k: usize, tag: &str, lvl: usize| -> Vec<Block> {
+        let i = if lvl >= 1 { "{i}" } else { "7" };
+        let j = if lvl >= 2 { "{j}" } else { "8" };
+        match k {
+            0 => vec![Block::Line(format!("stream A{} = T .where(x == {} + {})", tag, i, j))],
+            _ => vec![Block::Line(format!("stream B{} = T", tag)), Block::Line(format!("    .emit(v: {}, w: {})", j, i))],
+        }
+    };
+    let mut leaves: Vec<Vec<Block>> = Vec::new();
+    for k in 0..2 { leaves.push(leaf(k, "", 1)); }
+    // inner loops over 1–2 declarations
+    let mut inner: Vec<Block> = Vec::new();
+    for &(s, e) in &ranges {
+        for a in 0..2 {
+            inner.push(Block::Loop { var: "j".into(), start: s, end: e, incl: false, body: leaf(a, "x", 2) });
+            for b in 0..2 {
+                let mut body = leaf(a, "x", 2); body.extend(leaf(b, "y", 2));
+                inner.push(Block::Loop { var: "j".into(), start: s, end: e, incl: false, body });
+            }
+        }
+    }
+    // items of an outer body
+    let mut items: Vec<Vec<Block>> = leaves.clone();
+    for l in &inner { items.push(vec![l.clone()]); }
+    let mut outer: Vec<Block> = Vec::new();
+    for &(s, e) in &ranges {
+        for a in 0..items.len() {
+            outer.push(Block::Loop { var: "i".into(), start: s, end: e, incl: e > s && (s + e) % 2 == 0, body: items[a].clone() });
+            for b in 0..items.len() {
+                let mut body = items[a].clone(); body.extend(items[b].clone());
+                outer.push(Block::Loop { var: "i".into(), start: s, end: e, incl: false, body });
+            }
+        }
+    }
+    ctx.count_n("exhaustive.outer-loops", outer.len() as u64);
+    let mut n = 0u64;
+    for (k, o) in outer.iter().enumerate() {
+        let unit = if k % 2 == 0 { 4 } else { 2 };
+        let progs: Vec<Vec<Block>> = vec![
+            vec![o.clone()],
+            { let mut p = leaf(0, "p", 0); p.push(o.clone()); p },
+            { let mut p = vec![o.clone()]; p.extend(leaf(1, "q", 0)); p },
+        ];
+        for p in progs {
+            ctx.directive("new e");
+            run_h(ctx, unit, &p);
+            n += 1;
+        }
+    }
+    ctx.count_n("exhaustive.programs", n);
+}
+
 pub fn run(ctx: &mut Ctx, _name: &str) {
     std::panic::set_hook(Box::new(|_| {}));
     // fixed witnesses first (the documented examples of expand.rs and the shapes of DESIGN.md Appendix A)
@@ -262,6 +321,7 @@ pub fn run(ctx: &mut Ctx, _name: &str) {
         for k in (0..d).rev() { b = vec![Block::Loop { var: format!("v{}", k), start: 0, end: if k == 0 { 2 } else { 1 }, incl: false, body: b }]; }
         run_h(ctx, 1, &b);
     }
+    if ctx.thorough { exhaustive_small(ctx); }
     let nx = if ctx.thorough { 40000 } else { 3000 };
     for it in 0..nx {
         ctx.directive(&format!("new x{}", it));
